@@ -229,6 +229,12 @@ def c10(ctx, api):
     acc.add('GenOps: all ordered pairs of the 18 operator spellings%s x %d documents; operator triples (%s) x 256 documents'
             % (' with every unary prefix placement' if thorough else ' (+ every single operator with unary prefixes)',
                1000 if thorough else 343, '15^3, one spelling per operator' if thorough else '6^3, one operator per precedence level'), st, summ)
+    opset = '1..18' if thorough else '{1, 2, 3, 4, 6, 10, 11, 13, 15, 17, 18, 5, 7, 8, 9}'
+    st, summ = api['run_tlc_to_harness'](ctx, 'opforms', 'GenOpForms', cfg(constants={'Emit': 'TRUE', 'Prop': '"C10"', 'OpSet': opset}), timeout=3000)
+    acc.add('GenOpForms: e1 op1 e2 [op2 e3] over every ordered pair of %s operators, one operand at a time written in one of 11 other forms '
+            '(a call, a parenthesised field, @.x, $.x, an indexed multi-select list, a selected multi-select hash, a quoted identifier, a two-argument '
+            'call, a by-function, a call followed by an index, a call followed by .call), against the text with the grouping of the precedence levels '
+            'written out, on 54 documents (FormsGroupByTable on the model)' % ('18' if thorough else '15'), st, summ)
     lens = '{2, 3, 4, 15, 16, 17, 31, 32, 33, 63, 64, 65, 127, 128, 129, 257}' if thorough else '{2, 3, 31, 32, 33, 65}'
     st, summ = api['run_tlc_to_harness'](ctx, 'chain', 'GenChain', cfg(constants={'Emit': 'TRUE', 'Prop': '"C10"', 'Lens': lens}), timeout=1500)
     acc.add('GenChain: runs of %s operands joined by one operator (18 spellings) or two alternating operators of one level (14 pairs), '
@@ -551,14 +557,14 @@ def c06(ctx, api):
     acc.add('API.tla: every history of <= 3 calls over %d texts x %d documents (+ fed-back results)' % (consts['NTexts'], 4 if thorough else 3), st, summ)
     consts = {'Emit': 'TRUE', 'Prop': '"C06"', 'MaxCalls': 2 if thorough else 1, 'MaxDocs': 6, 'NTexts': 200}
     st, summ = api['run_tlc_to_harness'](ctx, 'api-wide', 'API', api_cfg(consts), timeout=3000)
-    acc.add('API.tla: every history of <= %d call(s) over all 95 texts (every reordering function x every aliasing source)' % consts['MaxCalls'], st, summ)
+    acc.add('API.tla: every history of <= %d call(s) over all 119 texts (every reordering function x every aliasing source, every ordered pair of reordering functions composed, on unsorted / ascending / descending documents)' % consts['MaxCalls'], st, summ)
     consts = {'Emit': 'TRUE', 'Prop': '"C06"', 'MaxCalls': 3 if thorough else 2, 'MaxDocs': 6, 'NTexts': 200}
     st, summ = api['run_tlc_to_harness'](ctx, 'api-space', 'API', api_cfg(consts, 'SpaceSel'), timeout=3000)
     acc.add('API.tla: every history of <= %d calls over a text and its variants with non-JMESPath blanks around it' % consts['MaxCalls'], st, summ)
     sim = {'num': 40 if thorough else 8, 'depth': 9, 'seed': ctx['seed']}
     consts = {'Emit': 'TRUE', 'Prop': '"C06"', 'MaxCalls': 8, 'MaxDocs': 7, 'NTexts': 200}
     st, summ = api['run_tlc_to_harness'](ctx, 'api-sim', 'API', api_cfg(consts), simulate=sim, timeout=1500)
-    acc.add('API.tla -simulate: histories of <= 8 calls over all 95 texts', st, summ, exhaustive=False)
+    acc.add('API.tla -simulate: histories of <= 8 calls over all 119 texts', st, summ, exhaustive=False)
     st, summ = api['run_tlc_to_harness'](ctx, 'apply', 'GenApply', cfg(constants={'Emit': 'TRUE', 'Prop': '"C06"'}), timeout=1500)
     acc.add('GenApply: every function x argument count x position of @, pool literals (also through a let variable) at the other positions, '
             'projected / mapped over an array of every admissible pool value and on single elements; the compiled expression is re-used '
@@ -695,7 +701,7 @@ def c15(ctx, api):
         ctx['harness_env'] = {}
     # ... nor on what an earlier call did to the caller's data: every history of two calls over all texts
     consts = {'Emit': 'TRUE', 'Prop': '"C15"', 'MaxCalls': 2, 'MaxDocs': 6, 'NTexts': 200}
-    st, summ = api['run_tlc_to_harness'](ctx, 'api-mut', 'API', api_cfg(consts, 'MutSel', npool=3 if thorough else 1), timeout=3000)
+    st, summ = api['run_tlc_to_harness'](ctx, 'api-mut', 'API', api_cfg(consts, 'MutSel', npool=4 if thorough else 2), timeout=3000)
     acc.add('API.tla: every history of 2 calls over the reordering functions x aliasing / mixed sources: the second call sees what the first left behind', st, summ)
     # the outcome of a call must not depend on the calls made before it (process-wide state, caches)
     consts = {'Emit': 'TRUE', 'Prop': '"C15"', 'MaxCalls': 3 if thorough else 2, 'MaxDocs': 6, 'NTexts': 200}
